@@ -298,12 +298,15 @@ class LoadedMessageInterface(Protocol):
         ...
 
     @abstractmethod
-    def contains(self, value: bytes) -> bool:
-        """Check the body of the message for a sub-string. This may be
-        optimized to only search headers and ``text/*`` MIME parts.
+    def contains(self, value: bytes, *, header: bool = True) -> bool:
+        """Check the message for a sub-string. This may be optimized to only
+        search headers and ``text/*`` MIME parts.
 
         Args:
             value: The sub-string to find.
+            header: Also search the message header, as ``SEARCH TEXT`` does;
+                if false only the message body is searched, as ``SEARCH BODY``
+                does.
 
         """
         ...
